@@ -63,6 +63,9 @@ def gen_cases(rng, ctx):
     for F in [1, 2, 3, 10, 100]:
         for _ in range(ctx.pick(3, 20)):
             cases.append({"F": F, "call": "select_frames", "ixs": [rng.randrange(F) for _ in range(rng.randint(1, 6))], "seed": 0})
+        cases.append({"F": F, "call": "select_frames", "ixs": [], "seed": 0})                       # the empty request: a pose of no frames
+        cases.append({"F": F, "call": "select_frames", "ixs": list(range(F)), "seed": 0})             # every frame, in order (as many indexes as frames)
+        cases.append({"F": F, "call": "select_frames", "ixs": [F - 1 - i for i in range(F)], "seed": 0})
         # structured index lists: contiguous blocks in shuffled / reversed / rotated order, repeats whose end points span exactly len − 1
         for _ in range(ctx.pick(6, 30)):
             a = rng.randrange(F); b = rng.randint(a, min(F - 1, a + 5))
